@@ -136,7 +136,15 @@ def _meshes(tier, seed):
         out.append(r)
     partial = mg.small_meshes() + mg.random_meshes(seed * 17 + 1, 14 if tier == "quick" else 150)
     partial += [mg.renumber(m, rng) for m in mg.small_meshes()[2:8]]
-    return out + partial
+    # a node that belongs to no face (accepted by the constructors; surrounded by fewer than three faces: no dual face)
+    extra = []
+    for m, at in ((closed[0], 3), (closed[1], 0), (mg.small_meshes()[2], 4)):
+        lon, lat = list(np.array(m["lon"], float)), list(np.array(m["lat"], float))
+        lon.insert(at, 33.0)
+        lat.insert(at, 11.0)
+        faces = [[(v + 1 if v >= at else v) for v in row if v != mg.FILL] for row in m["faces"]]
+        extra.append(mg.mk(m["name"] + "_with_unused_node", lon, lat, faces, closed=False))
+    return out + partial + extra
 
 
 # ------------------------------------------------------------------------------------------------ locally refined meshes
